@@ -34,7 +34,7 @@ static const char * const site_tag[S__N] = { "double", "float", "dtostre", "resu
 /* ---- cheap local counters (flushed to vh_count once per case) ---------------------------------------- */
 enum {
     K_CLS_RANDOM, K_CLS_POW10, K_CLS_POW10_NEIGH, K_CLS_CARRY_NINES, K_CLS_ZERO_DIGIT, K_CLS_BOUNDARY_D, K_CLS_BOUNDARY_F, K_CLS_TIE,
-    K_CLS_SUBNORMAL, K_CLS_ZERO, K_CLS_SMALL_INT, K_CLS_SWITCH, K_CLS_SHORT_DECIMAL, K_CLS_FLOAT_BITS, K_CLS_EVERYDAY, K_CLS_BIG_INT,
+    K_CLS_SUBNORMAL, K_CLS_ZERO, K_CLS_SMALL_INT, K_CLS_SWITCH, K_CLS_SHORT_DECIMAL, K_CLS_FLOAT_BITS, K_CLS_EVERYDAY, K_CLS_BIG_INT, K_CLS_POW2,
     K_VAL_NONFINITE, K_VAL_NEGATIVE, K_VAL_SUBNORMAL, K_VAL_FLOAT_CHECKED, K_VALUES,
     K_PF_MATCH, K_PF_FIXED, K_PF_EXPONENT, K_PF_EXACT_TIE, K_PF_TIE_OTHER, K_PF_SLOW, K_PF_DOUBLE, K_PF_FLOAT, K_PF_RESULT,
     K_DT_CALLS, K_DT_EXACT, K_DT_ONE_UNIT, K_DT_ONE_UNIT_SHORTER, K_DT_UNTRIMMED, K_DT_MORE_DIGITS, K_DT_FIXED, K_DT_EXPONENT, K_DT_ZERO_TEXT,
@@ -47,7 +47,7 @@ enum {
 };
 static const char * const kname[K__N] = {
     "class.random_bits", "class.pow10", "class.pow10_neighbour", "class.carry_nines", "class.zero_digit", "class.boundary_double", "class.boundary_float", "class.exact_tie",
-    "class.subnormal", "class.zero", "class.small_int", "class.switch_points", "class.short_decimal", "class.float_bits", "class.everyday_range", "class.big_int",
+    "class.subnormal", "class.zero", "class.small_int", "class.switch_points", "class.short_decimal", "class.float_bits", "class.everyday_range", "class.big_int", "class.pow2_and_integer_type_limits",
     "value.nonfinite", "value.negative", "value.subnormal", "value.float_checked", "values",
     "printf.match_fast", "printf.fixed_notation", "printf.exponent_notation", "printf.exact_tie", "printf.tie_other_neighbour", "printf.slow_path", "printf.double", "printf.float", "printf.result",
     "dtostre.calls", "dtostre.equal_to_rounded", "dtostre.one_unit_off", "dtostre.one_unit_off_and_shorter", "dtostre.untrimmed_trailing_zero", "dtostre.more_digits_than_precision", "dtostre.fixed_notation", "dtostre.exponent_notation", "dtostre.zero_text_for_nonzero",
@@ -519,7 +519,8 @@ static void triplef(float f, vh_rng_t * rng, int cls) {
 #define N_ZERODIG (632 * 9)    /* (k, d) */
 #define N_SMALLINT 64
 #define N_SPECIAL 1
-static uint64_t p0_count(int thorough) { (void) thorough; return N_POW10 + N_ZERODIG + N_SMALLINT + N_SPECIAL; }
+#define N_POW2 263             /* 2^-1074 .. 2^1023 in groups of 8 */
+static uint64_t p0_count(int thorough) { (void) thorough; return N_POW10 + N_ZERODIG + N_SMALLINT + N_POW2 + N_SPECIAL; }
 
 static const char * const special_texts[] = {
     "0.1", "0.01", "0.001", "0.0001", "0.00001", "0.000001", "0.2", "0.3", "0.5", "0.7", "1.5", "2.5", "0.125", "0.375", "0.15", "0.25", "0.35",
@@ -592,6 +593,18 @@ static void p0_run(uint64_t idx, vh_rng_t * rng) {
             CNT(K_CLS_SMALL_INT);
             check_value((double) (base + i), rng, 0, 0);
             if ((i & 7) == 0) { CNT(K_CLS_SMALL_INT); check_value(-(double) (base + i), rng, 0, 0); check_value((base + i) + 0.5, rng, 1, 0); CNT(K_CLS_TIE); }
+        }
+    } else if (idx < N_POW10 + N_ZERODIG + N_SMALLINT + N_POW2) {
+        /* powers of two with their neighbours: the images of integer type limits ((double) UINT64_MAX is 2^64, INT64_MAX 2^63, 2^32, 2^31, 2^53 ...),
+         * the limits of whatever integer type a digit generator may pass the integer part through */
+        int k0 = -1074 + 8 * (int) (idx - N_POW10 - N_ZERODIG - N_SMALLINT), k;
+        vh_case_desc("powers of two 2^%d..2^%d: value, neighbours, negatives, float versions", k0, k0 + 7);
+        set_rate(1, 200, 1, 20);
+        for (k = k0; k < k0 + 8 && k <= 1023; k++) {
+            double v = ldexp(1.0, k);
+            vh_sub = (uint64_t) (k + 1074);
+            triple(v, rng, K_CLS_POW2); triple(-v, rng, K_CLS_POW2);
+            if (k >= -149 && k <= 127) { triplef((float) v, rng, K_CLS_POW2); triplef(-(float) v, rng, K_CLS_POW2); }
         }
     } else {
         static const uint64_t special_bits[] = {
@@ -732,7 +745,7 @@ int main(int argc, char ** argv) {
     P10[0] = 1; for (i = 1; i < 39; i++) P10[i] = P10[i - 1] * 10;
     for (i = 0; i < K__N; i++) if (!kname[i]) { fprintf(stderr, "C16 harness: counter %d has no name\n", i); return 2; }
     g_salt = (uint64_t) (USE_CUSTOM_DTOSTRE ? 0x5bd1e995 : 0) + (uint64_t) (VH_ASAN ? 0x27d4eb2f165667c5ULL : 0);
-    vh_require("class.random_bits"); vh_require("class.pow10"); vh_require("class.pow10_neighbour"); vh_require("class.carry_nines");
+    vh_require("class.random_bits"); vh_require("class.pow2_and_integer_type_limits"); vh_require("class.pow10"); vh_require("class.pow10_neighbour"); vh_require("class.carry_nines");
     vh_require("class.zero_digit"); vh_require("class.boundary_double"); vh_require("class.boundary_float"); vh_require("class.exact_tie");
     vh_require("class.subnormal"); vh_require("value.subnormal"); vh_require("class.zero"); vh_require("value.nonfinite"); vh_require("class.small_int");
     vh_require("dtostre.equal_to_rounded"); vh_require("dtostre.fixed_notation"); vh_require("dtostre.exponent_notation"); vh_require("calls.p01"); vh_require("calls.p15");
